@@ -22,10 +22,16 @@ def close(a, b, rel=REL):
     return abs(a - b) <= rel * max(abs(a), abs(b)) + 1e-300
 
 
-def derivative(f, x):
+NO_DEMAND = [0]  # points at which neither route produced a reference (must stay 0 on the pinned tree; reported)
+
+
+def derivative(f, x, side=0):
     """(value, derivative, rel): exact dual-number derivative of the parent's own code (rel = REL) or, when the
-    parent's code cannot carry a dual number, a Richardson finite difference (rel = 1e-7; None next to a kink)."""
-    v, d, tol = derivative_ref(f, x)
+    parent's code cannot carry a dual number, a Richardson finite difference (rel = 1e-7; one-sided when the caller
+    says on which side of the bubble point x lies; None only if even that is not smooth)."""
+    v, d, tol = derivative_ref(f, x, side)
+    if d is None:
+        NO_DEMAND[0] += 1
     return v, d, (REL if tol is None else tol)
 
 
@@ -77,7 +83,7 @@ def eval_oil(case):
         p = f * pb
         evals += 1
         c = dict(case, p=p, frac=f)
-        val, d, rel = derivative(lambda q: oil.solution_gor_Standing(T, q, api, g, gor), p)
+        val, d, rel = derivative(lambda q: oil.solution_gor_Standing(T, q, api, g, gor), p, side=1 if p >= pb else -1)
         got = oil.dgor_dpressure_Standing(T, p, api, g, gor)
         if p >= pb:
             if not (got == 0 and d in (0, None)):
@@ -131,7 +137,7 @@ def eval_oil(case):
                                   case=dict(c, pc=[tpc, ppc], std=[t_std, p_std]), observed=co, expected=cands, tol=1e-12))
         if len(viol) > 4:
             break
-    return {"violations": viol[:4], "evals": evals, "outcome": "oil", "key": ("o", T, api, g, gor)}
+    return {"violations": viol[:4], "evals": evals, "outcome": "oil", "key": ("o", T, api, g, gor), "no_demand": NO_DEMAND[0]}
 
 
 def eval_history(case):
@@ -157,7 +163,25 @@ def eval_history(case):
                 viol.append(V("dBw/dp-after-history", f"b_water_McCain_dp(T={T}, p={p}) differs from the exact derivative "
                               "after other temperatures were evaluated", case=case))
                 break
-    return {"violations": viol[:2], "evals": n, "outcome": "history"}
+    # the same (T, p) for fluids that differ in exactly one of API, gas gravity, GOR: nothing keyed on a subset of the
+    # arguments may be reused
+    T0, p0 = case["temps"][0], case["pressures"][1]
+    for a2, g2, r2 in ((api, g, gor), (api + 7.0, g, gor), (api, g + 0.1, gor), (api, g, gor * 1.5), (api, g, gor)):
+        n += 1
+        pb2 = float(oil.pressure_bubblepoint_Standing(T0, a2, g2, r2))
+        _, want, rel_h = derivative(lambda q: oil.solution_gor_Standing(T0, q, a2, g2, r2), p0, side=1 if p0 >= pb2 else -1)
+        got = float(oil.dgor_dpressure_Standing(T0, p0, a2, g2, r2))
+        if not close(got, want, rel_h):
+            viol.append(V("dRs/dp-after-history", f"after neighbouring fluids were evaluated at the same (T, p), "
+                          f"dgor_dpressure_Standing(T={T0}, p={p0}, api={a2}, g={g2}, gor={r2}) = {got!r}; exact derivative {want!r}",
+                          case=case, observed=got, expected=want))
+            break
+        w3 = derivative(lambda x: oil.b_o_bubblepoint_Standing(T0, a2, g2, x), r2)[1]
+        if not close(float(oil.db_o_dgor_Standing(T0, a2, g2, r2)), w3, rel_h):
+            viol.append(V("dBo/dRs-after-history", "db_o_dgor_Standing differs from the exact derivative after neighbouring "
+                          "fluids were evaluated", case=case))
+            break
+    return {"violations": viol[:2], "evals": n, "outcome": "history", "no_demand": NO_DEMAND[0]}
 
 
 def evaluate(case):
@@ -209,6 +233,7 @@ def run(ctx):
                 "each derivative function is compared with the dual part obtained by running its parent on a "
                 "dual number; non-trivial = distinct fluid / state with a positive bubble point",
         "samples": samples_of(cs),
+        "points_without_a_derivative_reference": max((r.get("no_demand", 0) for r in res), default=0),
     }
     return ctx.finish("exploration", cov, [
         "forward-mode dual numbers reproduce the parent's arithmetic exactly (same operation order)",
